@@ -58,3 +58,33 @@ Theorem C14_rule_is_the_rule_of_compute_fields :
   rule (Some (pe, (e_in_out p, e_other_in_out p))) subj
   = expected_in_out (Bool.eqb subj (e_is_subject p)) (s_vert pe) p.
 Proof. exact rule_is_expected_in_out. Qed.
+
+(** ** C14 for one run as a certificate in Coq: every non-vertical sub-segment of the returned
+    vector (whose partner was returned too) against the crossing-number membership [Slab.inside_eo]
+    of the operands at its midpoint — the membership the verified region checker of C01 uses.
+    Evaluated by the check on the model's run of every case, whose output the correspondence compares
+    with the implementation's event for event.  That every run of a valid
+    input passes is NOT proved (it needs the status line to be sorted by the true vertical order). *)
+From GB Require Import Slab Cert14.
+Theorem C14_certificate_sound :
+  forall op (RA RB : list ring) (subs : list sub),
+  cert14 op RA RB subs = true -> forall s, In s subs -> sub_ok op RA RB subs s = true.
+Proof. exact cert14_sound. Qed.
+
+Theorem C14_certificate_flags :
+  forall op (RA RB : list ring) (subs : list sub) (s : sub),
+  sub_ok op RA RB subs s = true -> vertical_s s = false ->
+  s_io s = inside_eo (if s_subj s then RA else RB) (mid s) /\
+  (s_ty s = Normal -> s_oio s = negb (inside_eo (if s_subj s then RB else RA) (mid s))) /\
+  (s_ty s = NonContributing -> s_oio s = inside_eo (if s_subj s then RB else RA) (mid s)) /\
+  s_rt s = want_rt op s (inside_eo (if s_subj s then RA else RB) (mid s))
+             (match s_ty s with NonContributing => negb (inside_eo (if s_subj s then RB else RA) (mid s))
+                              | _ => inside_eo (if s_subj s then RB else RA) (mid s) end).
+Proof. exact sub_ok_flags. Qed.
+
+Theorem C14_certificate_run_sound :
+  forall (N : Num) (cv : pt N -> option (QArith_base.Q * QArith_base.Q)) op (A B : list (FillQueue.polygon N)) (st : store N) (evs : list eid),
+  cert14_run N cv op A B st evs = true ->
+  exists RA RB subs, operand_rings N cv A = Some RA /\ operand_rings N cv B = Some RB /\ subs_of N cv st evs evs = Some subs /\
+    forall s, In s subs -> sub_ok op RA RB subs s = true.
+Proof. exact cert14_run_sound. Qed.
